@@ -82,7 +82,7 @@ class StartProcessJob:
         return len(self.planned_jobs) > 0 or len(self.current_jobs) > 0
 
     def post_discipline(self, old):
-        return job_discipline(self, old) and reports_untouched(old) and other_command_lists_untouched(old)
+        return job_discipline(self, old)
 
     def post_shape_kept(self, old):
         return implies(job_shape(old.self), job_shape(self))
@@ -198,3 +198,21 @@ class JobsNext:
         enters the in-flight list only if process_job accepted it"""
         e = effect_at('process_job', 0)
         return ((e[0] is command) if count_effects('process_job') == 1 else False) and command is iter_old(group)[k - 1]
+
+
+# ------------------------------------------------------------------------------------------ starting failure strategy
+@contract('commander:ApplicationStartJobs.process_failure', props=['C03'])
+class StartProcessFailure:
+    """statement: 'After a required process fails to start, starting_failure_strategy is honoured: ABORT and STOP request
+    nothing further for that application (STOP then stops it once in-flight starts end), CONTINUE proceeds.'"""
+    raises = ()
+
+    def modifies(self):
+        return [field(self, 'planned_jobs'), field(self, 'stop_request')]
+
+    def post_strategy(self, process, old):
+        strategy = process.rules.starting_failure_strategy
+        wiped = process.rules.required and strategy in (StartingFailureStrategies.ABORT, StartingFailureStrategies.STOP)
+        return (ite(wiped, len(self.planned_jobs) == 0, self.planned_jobs is old.self.planned_jobs)
+                and self.stop_request == (old.self.stop_request
+                                          or (process.rules.required and strategy == StartingFailureStrategies.STOP)))
